@@ -38,6 +38,11 @@ def scenarios(thorough):
         out.append(cc.mk([P(1), E(2)], lookahead=la, workers=1, split="joinheads", waits=(2,), part_with_head=True,
                          name="plain+expect head+first body byte in one read, waits la=%d" % la))
     out.append(cc.mk([E(1)], lookahead=0, split="joinheads", waits=(1,), part_with_head=True, name="expect head+first body byte, waits"))
+    # an expecting request whose body is chunked (the expectation does not depend on how the body is framed)
+    Ec = lambda k: {"k": k, "kind": "expect_chunked"}
+    out.append(cc.mk([Ec(1)], lookahead=0, split="headbody", waits=(1,), name="expecting request with a chunked body, waits"))
+    out.append(cc.mk([P(1), Ec(2)], lookahead=1, workers=2, split="joinheads", waits=(2,), name="plain+expecting head (chunked body) same read, waits la=1"))
+    out.append(cc.mk([Ec(1), P(2)], lookahead=0, workers=1, split="one", name="expecting request with a chunked body, complete, + plain in one read"))
     # the end of one expecting request and the head of the next in the same read, both clients wait
     for la in (0, 1):
         out.append(cc.mk([E(1), E(2)], lookahead=la, workers=1, split="bodyhead", waits=(1, 2), name="two expecting requests, body of the first with the head of the second, both wait, la=%d" % la))
